@@ -13,14 +13,17 @@ import (
 //
 //	C05_WRITE_WITNESSES=/verif/findings/C05 go test -tags "verif pC05" -run TestWitnesses ./props/c05/
 //
-// Without the variable the test only checks that every witness is still a violation of the oracle on
-// the tree the test binary was built against (which is what "open finding" means).
+// Without the variable the test checks that the witnesses of open findings are still violations and
+// that those of fixed findings pass, on the tree the test binary was built against.
 
 func docOf(body string) string {
 	return "<!DOCTYPE html><html><head></head><body>" + body + "</body></html>"
 }
 
 type witness struct {
+	// open: the defect is still in /repo (the witness must be a violation); otherwise it has been
+	// fixed there and the witness must pass (it is part of the regression corpus of known_findings.json)
+	open            bool
 	name, msg, html string
 	sels            [][]Complex
 	texts           []string // optional explicit spellings (same length as sels)
@@ -44,12 +47,14 @@ func witnesses() []witness {
 			sels: [][]Complex{{cx1(at("k", "^=", ""))}, {cx1(at("k", "$=", ""))}, {cx1(at("k", "*=", ""))}, {cx1(at("k", "~=", ""))}},
 		},
 		{
+			open: true,
 			name: "attr-blank-value-substring",
 			msg:  "[k^=\" \"] / [k$=\" \"] / [k*=\" \"] do not match k=\" \" (the code refuses any white-space-only attribute value instead of an empty operand); Selectors 4 §6.2: the value begins with / ends with / contains the operand",
 			html: docOf(`<div k=" "></div><div k="  "></div><div k="c"></div>`),
 			sels: [][]Complex{{cx1(at("k", "^=", " "))}, {cx1(at("k", "$=", " "))}, {cx1(at("k", "*=", " "))}},
 		},
 		{
+			open: true,
 			name: "has-relative-scope",
 			msg:  "div:has(div span) matches a div that merely contains a span (the argument's leftmost compound is matched against the :has() element itself and its ancestors); Selectors 4 §4.5: the argument is a relative selector, i.e. ':scope div span' — every compound must match a descendant of the anchor",
 			html: docOf(`<div><span></span></div>`),
@@ -130,10 +135,13 @@ func TestWitnesses(t *testing.T) {
 			one.Sels = in.Sels[i : i+1]
 			raw, _ := json.Marshal(one)
 			res := fw.SafeCheck(p, raw)
-			if res.Verdict != fw.Violation {
-				t.Errorf("witness %s, selector %q: verdict %s (stale?)", w.name, in.Sels[i].Text, res.Verdict)
-			} else {
-				t.Logf("%s: %s: %.300s", w.name, res.Sig, res.Msg)
+			switch {
+			case w.open && res.Verdict != fw.Violation:
+				t.Errorf("open witness %s, selector %q: verdict %s (stale?)", w.name, in.Sels[i].Text, res.Verdict)
+			case !w.open && res.Verdict != fw.OK:
+				t.Errorf("fixed witness %s, selector %q: regression: %s: %s", w.name, in.Sels[i].Text, res.Sig, res.Msg)
+			default:
+				t.Logf("%s: %s %s: %.300s", w.name, res.Verdict, res.Sig, res.Msg)
 			}
 		}
 		if dir != "" {
